@@ -679,3 +679,117 @@ class ResolveGen(object):
         s.op("ci=vnacal_add_calibration $vc \"two\" $vn2")
         s.op("dump_vnacal $vc")
         return s.text()
+
+
+class ShiftGen(object):
+    """Handle numbers are arbitrary.  The same calibration - noisy data, an
+    unknown reflect seen by two or three standards, the first of them early
+    and the last one at the end - is built twice in one script: in a fresh
+    vnacal_t (handles 4, 5, 6 ...) and in a vnacal_t that already holds 9..70
+    parameters, some of them deleted again, with more foreign parameters
+    created between the standards (handles shifted, sparse and not ascending).
+    Solve verdict, solved value and corrected device must agree."""
+
+    def __init__(self, rng):
+        self.rng = rng
+        self.s = Script()
+        self.shape = None
+        self.L = {}
+
+    def scenario(self):
+        r = self.rng
+        for _ in range(12):
+            ctype = str(r.choice(["T8", "U8", "TE10", "UE10", "UE14", "E12",
+                                  "T16", "U16"]))
+            p = int(r.choice([1, 2, 2, 2, 3]))
+            if ctype in ("T16", "U16"):
+                p = int(r.choice([1, 2]))
+            F = int(r.choice([1, 2]))
+            sc = calgen.Scenario(ctype, p, p, F, r, form="m")
+            sc.sufficient_recipe(extras=int(r.integers(0, 3)))
+            sc.choose_entries()
+            for st in sc.stds:
+                st.full_rows = st.full_cols = True
+            ok, kappa = sc.well_determined(100.0)
+            if ok and len(sc.stds) <= 24:
+                return sc, kappa
+        return None, None
+
+    def generate(self):
+        r, s = self.rng, self.s
+        sc, kappa = self.scenario()
+        if sc is None:
+            return None
+        self.sc, self.kappa = sc, kappa
+        F = sc.F
+        g = complex(r.standard_normal(), r.standard_normal()) * 0.5
+        truth = np.full(F, g, dtype=complex)
+        guess = calgen.Param("scalar", truth + 0.02 * complex(
+            r.standard_normal(), r.standard_normal()))
+        unk = calgen.Param.unknown(truth, guess)
+        known = list(sc.stds)
+        mine = []
+        for _ in range(int(r.choice([2, 2, 3]))):
+            st = sc.add_reflect([int(r.integers(1, sc.p + 1))], [unk])
+            st.entry, st.form = "single_reflect", "m"
+            st.full_rows = st.full_cols = True
+            st.use_null_map = False
+            mine.append(st)
+        order = [known[int(i)] for i in r.permutation(len(known))]
+        order.insert(int(r.integers(0, min(3, len(order)) + 1)), mine[0])
+        for st in mine[1:-1]:
+            order.insert(int(r.integers(1, len(order) + 1)), st)
+        order.append(mine[-1])
+        sc.stds = order
+        sc.add_noise(10.0 ** r.uniform(-4, -2.7))
+        duts = sc.rand_dut()
+        nparams = len(set(id(prm) for st in sc.stds for row in st.sp
+                          for prm in row))
+        shift = int(r.integers(9, 71))
+        holes = r.random() < 0.5
+        between = [int(x) for x in r.choice([0, 0, 1, 2, 5], len(sc.stds) + 1)]
+        self.shape = (sc.ctype, sc.p, F, len(mine),
+                      "params>=9" if nparams >= 9 else "params<9",
+                      "holes" if holes else "dense")
+        self.info = dict(shift=shift, holes=holes, parameters=nparams,
+                         standards=len(sc.stds))
+        for side in ("a", "b"):
+            vc, vn = "v" + side, "n" + side
+            sc.reset_vars()
+            guess.var = None
+            s.op("%s=vnacal_create" % vc)
+            if side == "b":
+                for j in range(shift):
+                    s.op("fp%d=vnacal_make_scalar_parameter $%s %s" % (
+                        j, vc, cx(0.01 * j + 0.5j)))
+                if holes:
+                    for j in sorted(set(int(x) for x in r.integers(
+                            0, shift, max(1, shift // 4)))):
+                        s.op("vnacal_delete_parameter $%s $fp%d" % (vc, j))
+            s.op("%s=vnacal_new_alloc $%s %s %d %d %d" % (
+                vn, vc, sc.ctype, sc.r, sc.c, F))
+            s.rvec("freq", sc.freqs)
+            s.op("vnacal_new_set_frequency_vector $%s @freq" % vn)
+            s.op("vnacal_new_set_p_tolerance $%s %s" % (vn, hx(1e-11)))
+            s.op("vnacal_new_set_et_tolerance $%s %s" % (vn, hx(1e-11)))
+            s.op("vnacal_new_set_iteration_limit $%s 100" % vn)
+            uid = [0 if side == "a" else 5000]
+            adds = []
+            for i, st in enumerate(sc.stds):
+                if side == "b":
+                    for j in range(between[i]):
+                        s.op("fq%d_%d=vnacal_make_scalar_parameter $%s %s" % (
+                            i, j, vc, cx(0.3 + 0.01j * j)))
+                adds.append(sc.emit_std(s, st, i, vc=vc, vn=vn, uid=uid))
+            ls = s.op("vnacal_new_solve $%s" % vn)
+            lv = s.op("vnacal_get_parameter_values $%s %s @freq" % (
+                vc, unk.var))
+            lc = s.op("ci%s=vnacal_add_calibration $%s \"c\" $%s" % (
+                side, vc, vn))
+            s.op("vd%s=vnadata_alloc" % side)
+            la, ld = sc.emit_apply(s, duts, "c", form="m", vc=vc,
+                                   ci="$ci" + side, vd="vd" + side)
+            self.L[side] = dict(add=adds, solve=ls, value=lv, addcal=lc,
+                                apply=la, dump=ld)
+        self.truth = g
+        return s.text()
